@@ -178,6 +178,8 @@ class CompGen:
             return self.scalar_composition(n)
         if kind < 0.40:
             return self.untyped_ref_composition()
+        if kind < 0.52:
+            return self.oneof_not_composition()
         # object compositions
         used = {}   # property name -> a schema seen for it
         oneof_done = False
@@ -346,6 +348,82 @@ class CompGen:
             ops.append(o2)
         rnd.shuffle(ops)
         return {"defs": {}, "branches": ops, "tags": sorted(self.tags)}
+
+    def oneof_not_composition(self):
+        """an object member + a nested `oneOf` whose branches are plain / a satisfiable allOf / an UNSATISFIABLE allOf
+        (dead branch) / a `$ref`, and / or explicit `not` members (`not {allOf [..]}`, `not {enum}`, `not {type}`).
+        Branches are closed objects with a required property of their own (distinct names: finding C09-F3 is keyed to
+        branches that share a required property; open branches let a sibling's property through with a wrong value,
+        which the `not`-subtraction turns into `false`); every member is typed (C09-F10)."""
+        rnd = self.rnd
+        self.tags.add("oneof-not")
+        defs = {}
+        base_props = rnd.sample(["alpha", "beta", "gamma"], rnd.randrange(1, 3))
+        base = {"type": "object", "properties": {p: self.pick([{"type": "string"}, {"type": "integer"}]) for p in base_props}}
+        if rnd.random() < 0.5:
+            base["required"] = base_props[:1]
+        members = [base]
+        own = rnd.sample(["circle", "square", "tri", "hex"], 4)
+
+        def closed(p, extra=None):
+            props = {p: self.pick([{"type": "number"}, {"type": "string"}, {"type": "integer"}])}
+            # the branch must admit the base member's properties, else the conjunction is empty
+            for q, qs in base["properties"].items():
+                props[q] = json.loads(json.dumps(qs))
+            if extra:
+                props.update(extra)
+            return {"type": "object", "properties": props, "required": [p], "additionalProperties": False}
+
+        def branch(i):
+            r = rnd.random()
+            p = own[i]
+            if r < 0.35:
+                self.tags.add("oneof-branch-plain")
+                return closed(p)
+            if r < 0.55:
+                self.tags.add("oneof-branch-allof")
+                return {"allOf": [closed(p), {"type": "object", "properties": {p: {}}}]}
+            if r < 0.8:
+                self.tags.add("oneof-branch-dead")
+                if rnd.random() < 0.5:
+                    defs["Legacy"] = {"type": "object", "properties": {"version": {"enum": [1, 2]}}}
+                    return {"allOf": [{"$ref": "#/definitions/Legacy"},
+                                      {"type": "object", "properties": {"version": {"enum": [3]}}, "required": ["version"]}]}
+                return {"allOf": [{"type": "string"}, closed(p)]}
+            self.tags.add("oneof-branch-ref")
+            nm = "B%d" % len(defs)
+            defs[nm] = closed(p)
+            return {"$ref": "#/definitions/" + nm}
+        mode = rnd.random()
+        if mode < 0.65:
+            k = rnd.randrange(2, 4)
+            members.append({"oneOf": [branch(i) for i in range(k)]})
+        if mode >= 0.45:
+            self.tags.add("explicit-not")
+            # `not` of a `required` is turned into a `false` property only when the accumulated schema already has
+            # object keywords (finding C09-F13): with three or more members only the other `not` shapes are used
+            two = (mode >= 0.65)
+            members.append({"not": self.pick([{"allOf": [{"type": "string"}, {"type": "object"}]},
+                                              {"enum": ["red", 5, None]}, {"type": "string"}, {"type": ["string", "null"]}]
+                                             if not two else [
+                {"allOf": [{"type": "string"}, {"type": "object"}]},
+                {"allOf": [{"type": "object", "required": ["zz"]}, {"type": "object"}]},
+                {"allOf": [{"type": "object", "required": ["zz"]}]},
+                {"enum": ["red", 5, None]}, {"type": "string"}, {"type": ["string", "null"]},
+                {"type": "object", "required": ["zz"]}])})
+            if two:
+                rnd.shuffle(members)
+                return {"defs": defs, "branches": members, "tags": sorted(self.tags)}
+        if rnd.random() < 0.4:
+            members.append({"type": "object", "properties": {base_props[0]: {}}})
+        if len(members) >= 3 and any("oneOf" in m for m in members):
+            # a oneOf that is not merged last is distributed twice; with a `required` in another member the weak
+            # `not`-subtraction kills the branches (finding C09-F14, curated witness): no `required` then
+            for m in members:
+                if "oneOf" not in m:
+                    m.pop("required", None)
+        rnd.shuffle(members)
+        return {"defs": defs, "branches": members, "tags": sorted(self.tags)}
 
     UNTYPED_DEFS = [
         ("props", {"properties": {"alpha": {"type": "string"}}}),
@@ -936,6 +1014,22 @@ def finding_for(ctx, comp, what, kw_instance=None):
                 return False
             if inst is not None and has_empty(inst) and items_meet:
                 return f
+        if cls == "oneof-distributed-twice-with-common-required":
+            has_oneof = any(isinstance(b, dict) and len(b.get("oneOf", [])) >= 2 for b in br)
+            other_req = any(isinstance(b, dict) and "oneOf" not in b and b.get("required") for b in br)
+            if has_oneof and other_req and len(comp["branches"]) >= 3 and \
+                    (what.startswith("permutation") or what in ("valid-instance-rejected", "satisfiable-but-never")):
+                return f
+        if cls == "not-required-lost-before-object-keywords":
+            def neg_required(x, depth=0):
+                if not isinstance(x, dict) or depth > 4:
+                    return False
+                if x.get("required"):
+                    return True
+                return any(neg_required(y, depth + 1) for y in x.get("allOf", []))
+            if len(comp["branches"]) >= 3 and what.startswith("permutation") and \
+                    any(isinstance(b, dict) and "not" in b and neg_required(b["not"]) for b in br):
+                return f
         if cls == "distinct-formats-never":
             ASSERTED = {"uuid", "date", "date-time", "ip", "ipv4", "ipv6"}
             fm = []
@@ -1046,7 +1140,10 @@ def run(ctx):
 
     # ---- compositions
     comps = load_corpus()
-    n_rand = 36 if quick else 220
+    if quick:
+        # the witness whose generated module does not compile costs a second cargo round: thorough tier only
+        comps = [c for c in comps if "compile-error" not in c.get("tags", [])]
+    n_rand = 24 if quick else 220
     for k in range(n_rand):
         g = CompGen(ctx.seed * 1000003 + k)
         c = g.composition()
